@@ -18,10 +18,15 @@
                           interleaved turn by turn (every continuation then resolves its call from the echoed
                           call token instead of the cache).  Records of all workers are judged together.
                "httpcap"  HTTP with max_response_bytes: a too large unary result / exchange output is
-                          replaced by an error (cap overshoot); only unary and exchange kinds are used here
+                          replaced by an error (cap overshoot); a producer turn keeps running process() steps
+                          until the body reaches the cap, so here ALL steps of a producer run inside /init
+                          (the cap is far above the batches): one dispatch for the whole stream, whose status
+                          is error iff some step raised; batches produced before the error are pre-loaded and
+                          the error is raised by the client once they have been handed out
 
    Call descriptors [k, site, ops]
-     k     "u" unary | "big" unary with a large result | "p" producer | "ph" producer with header | "x" exchange
+     k     "u" unary | "big" unary with a large result | "d" the built-in __describe__ (a unary dispatch) |
+           "p" producer | "ph" producer with header | "p0" producer that finishes at its first step | "x" exchange
      site  "none" | "call" (unary raises) | "init" | "p1" | "p2" (K-th process step raises) |
            "b1" (exchange step 1 emits a batch larger than the cap)
      ops   client operations on the session: "t" tick/exchange, "i" iterate to the end, "c" close, "x" cancel
@@ -43,17 +48,19 @@ CONSTANTS MaxCalls, MaxTicks, ProdLen, Transports, MsgClasses, PairMsgClasses, F
 RECURSIVE Ticks(_)
 Ticks(n) == IF n = 0 THEN <<>> ELSE <<"t">> \o Ticks(n - 1)
 StreamEnds == {Ticks(n) \o <<e>> : n \in 0..MaxTicks, e \in {"c", "x"}}
-OpsFor(k) == IF k \in {"u", "big"} THEN {<<>>}
-             ELSE IF k \in {"p", "ph"} THEN StreamEnds \cup {<<"i">>, <<"t", "i">>} ELSE StreamEnds
+OpsFor(k) == IF k \in {"u", "big", "d"} THEN {<<>>}
+             ELSE IF k \in {"p", "ph"} THEN StreamEnds \cup {<<"i">>, <<"t", "i">>}
+             ELSE IF k = "p0" THEN {<<"c">>, <<"x">>, <<"i">>, <<"t", "c">>, <<"t", "x">>} ELSE StreamEnds
 SitesFor(k) == CASE k = "u"   -> {"none", "call"}
                  [] k = "big" -> {"none"}
+                 [] k = "d"   -> {"none"}
                  [] k = "p"   -> {"none", "init", "p1", "p2"}
                  [] k = "ph"  -> {"none", "init", "p1"}
+                 [] k = "p0"  -> {"none"}
                  [] k = "x"   -> {"none", "init", "p1", "p2", "b1"}
 DescsOf(kinds) == UNION {{[k |-> k, site |-> s, ops |-> o] : s \in SitesFor(k), o \in OpsFor(k)} : k \in kinds}
-DescsAll == DescsOf({"u", "big", "p", "ph", "x"})          \* zero-arity: evaluated once
-DescsCap == DescsOf({"u", "big", "x"})
-CallDescs(t) == IF t = "httpcap" THEN DescsCap ELSE DescsAll
+DescsAll == DescsOf({"u", "big", "d", "p", "ph", "p0", "x"})          \* zero-arity: evaluated once
+CallDescs(t) == DescsAll
 \* calls that may follow another call: all of them (FullPairs) or those with a short client script
 ShortOps == {<<>>, <<"c">>, <<"i">>, <<"t", "c">>, <<"t", "x">>}
 Raises(c) == c.site \in {"call", "init", "p1", "p2"}
@@ -62,7 +69,9 @@ Allowed(t) == IF t = "httpcap" THEN MsgClasses \cap {"ascii"} ELSE MsgClasses
 VARIABLES tr, msg, script, ip, pc, st, hist, alog, outc, nsid
 vars == <<tr, msg, script, ip, pc, st, hist, alog, outc, nsid>>
 
-NoStream == [sid |-> 0, step |-> 0, pre |-> 0, dead |-> FALSE, d |-> 0, op |-> 0]
+\* pre / tail (HTTP producers): batches pre-loaded by the last response, and what follows them: "more" (a cursor token:
+\* the next tick is a continuation request), "err" (an error the client raises once they are consumed), "fin" (finished)
+NoStream == [sid |-> 0, step |-> 0, pre |-> 0, tail |-> "more", dead |-> FALSE, d |-> 0, op |-> 0]
 Init == /\ tr \in Transports
         /\ script = <<>> /\ msg = "none"
         /\ ip = 0 /\ pc = "idle" /\ st = NoStream /\ hist = <<>> /\ alog = <<>> /\ outc = <<>> /\ nsid = 1
@@ -73,7 +82,14 @@ NextMsg(c) == IF msg # "none" THEN {msg} ELSE IF Raises(c) THEN (IF ip = 0 THEN 
               ELSE {"none"}
 C == script[ip]
 IsHttp == tr \in {"http", "httpcap"}
-IsProd(c) == c.k \in {"p", "ph"}
+IsProd(c) == c.k \in {"p", "ph", "p0"}
+PLen(c) == IF c.k = "p0" THEN 0 ELSE ProdLen          \* data batches a producer emits before it finishes
+RaiseStep(c) == IF c.site = "p1" THEN 1 ELSE IF c.site = "p2" THEN 2 ELSE 0     \* 0 = never
+\* the process() steps a producer's /init runs: one, or (under the response cap) all up to the raise / the finish
+InitLast(c) == IF tr = "httpcap" THEN (IF RaiseStep(c) > 0 THEN RaiseStep(c) ELSE PLen(c) + 1) ELSE 1
+InitTail(c) == IF RaiseStep(c) > 0 /\ RaiseStep(c) <= InitLast(c) THEN "err"
+               ELSE IF InitLast(c) > PLen(c) THEN "fin" ELSE "more"
+InitPre(c) == IF InitTail(c) = "more" THEN InitLast(c) ELSE InitLast(c) - 1
 RaisesAt(c, step) == (c.site = "p1" /\ step = 1) \/ (c.site = "p2" /\ step = 2)
 Overshoot(c, step) == tr = "httpcap" /\ c.site = "b1" /\ step = 1
 \* a record: call = index of the call in the script, d = index of the dispatch, own = the error message is the
@@ -89,7 +105,7 @@ Over == pc' = "idle" /\ st' = NoStream
 
 \* ------------------------------------------------------------------------------------------ unary
 UnaryCall(c, m) ==
-  /\ MayCall /\ c.k \in {"u", "big"} /\ m \in NextMsg(c)
+  /\ MayCall /\ c.k \in {"u", "big", "d"} /\ m \in NextMsg(c)
   /\ LET overs == tr = "httpcap" /\ c.k = "big"
          fails == c.site = "call" \/ overs IN
      /\ ip' = ip + 1 /\ script' = Append(script, c) /\ msg' = m
@@ -100,7 +116,7 @@ UnaryCall(c, m) ==
 
 \* ------------------------------------------------------------------------------------------ stream call / init
 StreamCall(c, m) ==
-  /\ MayCall /\ c.k \in {"p", "ph", "x"} /\ m \in NextMsg(c)
+  /\ MayCall /\ c.k \in {"p", "ph", "p0", "x"} /\ m \in NextMsg(c)
   /\ LET i == ip + 1  hdr == c.k = "ph" IN
      /\ ip' = i /\ nsid' = nsid + 1 /\ script' = Append(script, c) /\ msg' = m
      /\ IF ~IsHttp
@@ -113,20 +129,21 @@ StreamCall(c, m) ==
                                  /\ st' = [NoStream EXCEPT !.sid = nsid, !.dead = TRUE, !.d = NewD]
              ELSE /\ outc' = Append(outc, "unobs") /\ Ev("call", "ok") /\ pc' = "open" /\ UNCHANGED alog
                   /\ st' = [NoStream EXCEPT !.sid = nsid, !.d = NewD]
-        ELSE \* HTTP /init: a producer's first step runs inside it.  When that step raises after the header was
-             \* written, the client keeps the header and raises at the first tick (as a socket client sees it); a
-             \* client that leaves without ticking never observes the error.  The dispatch has failed either way.
-             LET fails == c.site = "init" \/ (IsProd(c) /\ RaisesAt(c, 1))
-                 deferred == fails /\ hdr /\ c.site # "init" IN
-             /\ outc' = Append(outc, IF deferred THEN "unobs" ELSE IF fails THEN "err" ELSE "ok")
+        ELSE \* HTTP /init: a producer's first step(s) run inside it.  When a step raises after a header or batches
+             \* were written, the client keeps those and raises once they are consumed (as a socket client sees it);
+             \* a client that leaves before never observes the error.  The dispatch has failed either way.
+             LET prod == IsProd(c)
+                 tail == IF prod THEN InitTail(c) ELSE "more"
+                 pre == IF prod THEN InitPre(c) ELSE 0
+                 fails == c.site = "init" \/ (prod /\ tail = "err")
+                 atcall == c.site = "init" \/ (prod /\ tail = "err" /\ pre = 0 /\ ~hdr) IN
+             /\ outc' = Append(outc, IF atcall THEN "err" ELSE IF fails THEN "unobs" ELSE "ok")
              /\ alog' = Append(alog, RecM(m, i, NewD, "stream", nsid, IF fails THEN "error" ELSE "ok", TRUE, FALSE))
-             /\ Ev("call", IF fails /\ ~deferred THEN "err" ELSE "ok")
-             /\ IF deferred THEN /\ pc' = "open"
-                                 /\ st' = [NoStream EXCEPT !.sid = nsid, !.dead = TRUE, !.d = NewD]
-                ELSE IF fails THEN Over
+             /\ Ev("call", IF atcall THEN "err" ELSE "ok")
+             /\ IF atcall THEN Over
                 ELSE /\ pc' = "open"
-                     /\ st' = [NoStream EXCEPT !.sid = nsid, !.d = NewD, !.step = IF IsProd(c) THEN 1 ELSE 0,
-                                               !.pre = IF IsProd(c) THEN 1 ELSE 0]
+                     /\ st' = [NoStream EXCEPT !.sid = nsid, !.d = NewD, !.step = IF prod THEN InitLast(c) ELSE 0,
+                                               !.pre = pre, !.tail = tail]
   /\ UNCHANGED tr
 
 NextOp == IF st.op < Len(C.ops) THEN C.ops[st.op + 1] ELSE "c"
@@ -142,14 +159,18 @@ Tick ==
      THEN IF RaisesAt(c, k)
           THEN /\ Ev("tick", "err") /\ outc' = [outc EXCEPT ![st.d] = "err"] /\ Over
                /\ alog' = Append(alog, Rec(ip, st.d, "stream", st.sid, "error", TRUE, FALSE))
-          ELSE IF IsProd(c) /\ k > ProdLen
+          ELSE IF IsProd(c) /\ k > PLen(c)
           THEN /\ Ev("tick", "stop") /\ outc' = [outc EXCEPT ![st.d] = "ok"] /\ Over
                /\ alog' = Append(alog, Rec(ip, st.d, "stream", st.sid, "ok", TRUE, FALSE))
           ELSE /\ Ev("tick", "data") /\ st' = [Adv(st) EXCEPT !.step = k] /\ UNCHANGED <<alog, outc, pc>>
      ELSE IF IsProd(c) /\ st.pre > 0
-          THEN /\ Ev("tick", "data") /\ st' = [Adv(st) EXCEPT !.pre = 0] /\ UNCHANGED <<alog, outc, pc>>
+          THEN /\ Ev("tick", "data") /\ st' = [Adv(st) EXCEPT !.pre = @ - 1] /\ UNCHANGED <<alog, outc, pc>>
+     ELSE IF IsProd(c) /\ st.tail = "err"        \* the error that came behind the pre-loaded output: no request
+          THEN /\ Ev("tick", "err") /\ outc' = [outc EXCEPT ![st.d] = "err"] /\ Over /\ UNCHANGED alog
+     ELSE IF IsProd(c) /\ st.tail = "fin"        \* the stream already finished: no request
+          THEN /\ Ev("tick", "stop") /\ Over /\ UNCHANGED <<alog, outc>>
           ELSE LET fails == RaisesAt(c, k) \/ Overshoot(c, k)
-                   fin == IsProd(c) /\ k > ProdLen IN
+                   fin == IsProd(c) /\ k > PLen(c) IN
                /\ outc' = Append(outc, IF fails THEN "err" ELSE "ok")
                /\ alog' = Append(alog, Rec(ip, NewD, "stream", st.sid, IF fails THEN "error" ELSE "ok",
                                            ~Overshoot(c, k), FALSE))
@@ -168,7 +189,7 @@ Close ==
 Cancel ==
   /\ pc = "open" /\ NextOp = "x"
   /\ Ev("cancel", "ok") /\ Over
-  /\ IF st.dead THEN UNCHANGED <<alog, outc>>        \* nothing left to cancel: no dispatch
+  /\ IF st.dead \/ (IsHttp /\ st.tail # "more") THEN UNCHANGED <<alog, outc>>     \* nothing left to cancel: no dispatch
      ELSE IF IsHttp
      THEN /\ outc' = Append(outc, "cancelled")
           /\ alog' = Append(alog, Rec(ip, NewD, "stream", st.sid, "ok", TRUE, TRUE))
@@ -194,6 +215,10 @@ StatusOK(recs, model, oc) == \A i \in Idx(recs) : i \in Idx(model) =>
                                                           /\ (o = "err" => recs[i].status = "error")
 SidOK(recs, model) == \A i, j \in Idx(recs) : (i \in Idx(model) /\ j \in Idx(model) /\ model[i].mtype = "stream"
                                               /\ model[i].call = model[j].call) => (recs[i].sid = recs[j].sid /\ recs[i].sid # 0)
+\* the same facts read from the record as a formatter with a small max_record_bytes renders it (field-shedding /
+\* sentinel form): csid, chasMsg, cfull, cvalid
+SidOKc(recs, model) == \A i, j \in Idx(recs) : (i \in Idx(model) /\ j \in Idx(model) /\ model[i].mtype = "stream"
+                                               /\ model[i].call = model[j].call) => (recs[i].csid = recs[j].csid /\ recs[i].csid # 0)
 MsgNonEmpty(recs) == \A i \in Idx(recs) : recs[i].status = "error" => recs[i].hasMsg
 MsgFull(recs) == \A i \in Idx(recs) : recs[i].status = "error" => recs[i].full
 StatusMatches == StatusOK(alog, alog, outc)
